@@ -1,7 +1,10 @@
 """C29 -- batch parameter expansion is an exact cartesian product."""
 import collections
+import contextlib
+import io
 import json
 import random
+import types
 
 from harness import coqio as q
 
@@ -9,9 +12,10 @@ ID = "C29"
 COQ_REQUIRE = ["M_Batch"]
 COQ_CASE_TYPE = "M_Batch.case"
 COQ_CHECK = "M_Batch.check_case"
-OBLIGATIONS = ["expansion_complete", "expansion_keys_sorted", "expansion_length", "expansion_nodup",
+OBLIGATIONS = ["sorted_is_sorted_permutation", "expansion_complete", "expansion_values_complete",
+               "expansion_keys_sorted", "expansion_length", "expansion_nodup",
                "expansion_deterministic", "options_render_once", "options_leaves_fixed",
-               "regularize_leaves_are_strings"]
+               "options_injective"]
 N_QUICK, N_THOROUGH = 400, 8000
 SHARD = 100
 RULE = ("seeded random YAML-like parameter definitions: 0-4 parameters per level with names from a "
@@ -26,8 +30,9 @@ MODELLED = ("regularize_parameters, parameters_configuration (any nesting depth)
             "modelled) are modelled; completeness/soundness of the expansion, sorted keys, length = "
             "product, no duplicates for distinct values, independence of insertion order and option "
             "rendering are theorems about the model (Prop_C29.v); str() of non-int scalars and the "
-            "tie to batch.py rest on this differential run; estimate_batch and run_batch glue are "
-            "only checked by the oracle (estimate = number of combinations)")
+            "tie to batch.py rest on this differential run; estimate_batch and run_batch/"
+            "build_final_command glue are only checked by the oracle (estimate = number of "
+            "combinations; simulate mode prints one 'pydcop <command> <options>' line per combination)")
 META = dict(
     level_text=("Proof (Coq) that in the model of pydcop/commands/batch.py the expansion of a batch "
                 "parameter definition (nested to any depth) is exactly the set of choice functions "
@@ -158,6 +163,18 @@ def run_impl(case):
     except Exception as e:
         return dict(error=type(e).__name__)
     out = dict(reg=_reg_json(reg), conf=[_comb_json(c) for c in conf], opts=opts, est=est)
+    # the glue: run_batch in simulate mode prints one command line per combination
+    buf = io.StringIO()
+    saved = getattr(B, "pbar", None)
+    B.pbar = types.SimpleNamespace(update=lambda n: None)
+    try:
+        with contextlib.redirect_stdout(buf):
+            B.run_batch({"command": "solve", "command_options": _py(case["yaml"])}, {}, {}, None, simulate=True)
+        out["lines"] = buf.getvalue().split("\n")[:-1]
+    except Exception as e:
+        out["lines"] = dict(error=type(e).__name__)
+    finally:
+        B.pbar = saved
     # same definition, other insertion order / list order
     obj2 = _py(case["yaml"], random.Random(case["perm_seed"]))
     try:
@@ -208,12 +225,17 @@ def _depth(d):
     return max([0] + [1 + _depth(v["d"]) for _, v in d if "d" in v])
 
 
-def _expected_option(c):
+def _expected_option(c, bare_empty=False):
+    """one '--name value' / '--name sub:value' piece per chosen leaf, in order, blank separated.
+    An empty value may be rendered as '--name ' (what the code does) or as the bare flag '--name'
+    (what build_option_string's unreachable branch intends): the property does not choose."""
     toks = []
     for k, v in c:
         if isinstance(v, dict):
             for sk, sv in v["d"]:
                 toks.append("--%s %s:%s" % (k, sk, sv))
+        elif v == "" and bare_empty:
+            toks.append("--%s" % k)
         else:
             toks.append("--%s %s" % (k, v))
     return " ".join(toks)
@@ -239,9 +261,12 @@ def oracle(case, o):
         return "expansion depends on dict insertion order or list order"
     if o["est"] != len(got) and d:
         return "estimate_batch = %r but %d combinations" % (o["est"], len(got))
+    exp_lines = ["pydcop solve" + (" " + s if s else "") for s in o["opts"]]
+    if _depth(d) <= 1 and o["lines"] != exp_lines:     # deeper: a dict repr's braces reach str.format
+        return "run_batch(simulate) printed %r, expected one line per combination %r" % (o["lines"][:3], exp_lines[:3])
     if _depth(d) <= 1:
         for c, s in zip(got, o["opts"]):
-            if s != _expected_option(c):
+            if s != _expected_option(c) and s != _expected_option(c, True):
                 return "options of %r rendered as %r" % (c, s)
     return None
 
@@ -276,13 +301,22 @@ def _ydict_term(d):
     return q.lst([q.pair(q.s(k), _yval_term(v)) for k, v in d])
 
 
+def _strict_s(x):
+    """observed leaves must be real str objects (q.s would silently str() an int)"""
+    if not isinstance(x, str):
+        raise TypeError("non-str leaf %r in the implementation's output" % (x,))
+    return q.s(x)
+
+
 def _reg_term(r):
-    return q.lst([q.pair(q.s(k), ("PDict %s" % _reg_term(v["d"])) if "d" in v else ("PList %s" % q.slist(v["l"])))
+    return q.lst([q.pair(_strict_s(k), ("PDict %s" % _reg_term(v["d"])) if "d" in v
+                         else ("PList %s" % q.lst([_strict_s(x) for x in v["l"]])))
                   for k, v in r])
 
 
 def _comb_term(c):
-    return q.lst([q.pair(q.s(k), ("CDict %s" % _comb_term(v["d"])) if isinstance(v, dict) else ("CVal %s" % q.s(v)))
+    return q.lst([q.pair(_strict_s(k), ("CDict %s" % _comb_term(v["d"])) if isinstance(v, dict)
+                         else ("CVal %s" % _strict_s(v)))
                   for k, v in c])
 
 
